@@ -28,8 +28,8 @@ for id in "$@"; do
   # classify the run by the VIOLATION lines, so none of them may fall victim to a line limit
   echo "$out" | grep -E "^\[|^KNOWN" | cut -c1-400 | head -40
   echo "$out" | grep -E "^VIOLATION"
-  # VIOLATION lines always carry the PARENT property id (first three characters of a sub-check id)
-  if echo "$out" | grep -q "^VIOLATION property=${id:0:3} "; then caught=$((caught+1)); for r in $(echo "$out" | grep -o "replay=[^ ]*" | head -2); do echo "--- ${r#replay=}"; head -12 "${r#replay=}"; done; fi
+  # a sub-check run under its parent reports under the PARENT id, run directly under its own id: accept both
+  if echo "$out" | grep -qE "^VIOLATION property=($id|${id:0:3}) "; then caught=$((caught+1)); for r in $(echo "$out" | grep -o "replay=[^ ]*" | head -2); do echo "--- ${r#replay=}"; head -12 "${r#replay=}"; done; fi
 done
 git -C /repo worktree remove --force $M/repo 2>/dev/null; rm -rf $M/repo $M/verif
 echo "mutant: caught by $caught of $total checks"
